@@ -443,7 +443,7 @@ fn closure(zone: &[NameRec], start: &Multiaddr) -> Option<BTreeSet<String>> {
     let mut work = vec![start.clone()];
     seen.insert(start.to_string());
     while let Some(a) = work.pop() {
-        if seen.len() > 20_000 {
+        if seen.len() > 1_500 {
             return None;
         }
         match ref_step(zone, &a) {
@@ -668,7 +668,7 @@ fn case() -> impl Strategy<Value = Case> {
 pub fn run(ctx: &mut Ctx) {
     ctx.assume("the resolver is any implementation of the public (doc-hidden) `libp2p_dns::Resolver` trait; it may return Ok lookups with zero records or with records of another type (hickory's own LookupIpFuture documents returning 'an empty lookup')");
     ctx.assume("'inner dial attempts' counts the attempts the inner transport accepted (returned a dial future), as the implementation documents; synchronous refusals are not counted");
-    ctx.assume("TXT records name DNS hosts mostly in leading position so that the unbounded reference closure stays finite (cases whose closure exceeds 20 000 addresses skip the closure oracle only)");
+    ctx.assume("TXT records name DNS hosts mostly in leading position so that the unbounded reference closure stays finite (cases whose closure exceeds 1 500 addresses skip the closure oracle only)");
     ctx.check(
         "record-graphs",
         "1..8 names each with A / AAAA / any-IP answers (error, empty, CNAME-only, 1..3 or 15..20 records incl. wrong-type and CNAME) and TXT answers (error, empty, no strings, 1..4 or 15..20 records: dnsaddr= to IPs / nested dnsaddr / dns4 / dns6 names incl. self-loops and cycles, with or without /tcp and /p2p of 3 peers; malformed variants); dial = [relay prefix] /dnsaddr|dns|dns4|dns6/<name>[/tcp/p][/p2p/X][/second dns]; inner transport script per call (ok / err / unsupported / other); lookups yield 0..2 times; non-trivial = a bound was reached, a name was looked up twice (cycle), or an empty/partial answer was served",
